@@ -167,7 +167,7 @@ func (c vfC08Case) String() string {
 func vfC08Gen(rt *rapid.T) vfC08Case {
 	c := vfC08Case{}
 	c.Presence = rapid.IntRange(1, 3).Draw(rt, "presence")
-	c.Stale = rapid.SampledFrom([]int{1, 2, 4}).Draw(rt, "stale")
+	c.Stale = rapid.SampledFrom([]int{1, 2, 4, 8}).Draw(rt, "stale")
 	c.ExpDelay = rapid.IntRange(1, 2).Draw(rt, "expDelay")
 	c.SubExpDelay = rapid.IntRange(1, 2).Draw(rt, "subExpDelay")
 	c.Sched = rapid.IntRange(0, 2).Draw(rt, "sched") == 0
@@ -177,7 +177,7 @@ func vfC08Gen(rt *rapid.T) vfC08Case {
 			Pos:   rapid.Bool().Draw(rt, "pos"),
 			Pres:  rapid.Bool().Draw(rt, "pres"),
 			JL:    rapid.IntRange(0, 3).Draw(rt, "jl") == 0,
-			ExpIn: rapid.SampledFrom([]int{0, 0, 0, 1, 2, 4}).Draw(rt, "chExp"),
+			ExpIn: rapid.SampledFrom([]int{0, 0, 1, 2, 3}).Draw(rt, "chExp"),
 		})
 	}
 	nc := rapid.IntRange(1, 3).Draw(rt, "nconns")
@@ -186,8 +186,8 @@ func vfC08Gen(rt *rapid.T) vfC08Case {
 			User:    rapid.IntRange(0, 1).Draw(rt, "user"),
 			Uni:     rapid.IntRange(0, 4).Draw(rt, "uni") == 0,
 			Proto:   rapid.SampledFrom([]ProtocolType{ProtocolTypeJSON, ProtocolTypeProtobuf}).Draw(rt, "proto"),
-			Ping:    rapid.SampledFrom([]int{0, 0, 2, 3}).Draw(rt, "ping"),
-			ExpIn:   rapid.SampledFrom([]int{0, 0, 0, 1, 2, 3, 5}).Draw(rt, "connExp"),
+			Ping:    rapid.SampledFrom([]int{0, 0, 0, 2, 3}).Draw(rt, "ping"),
+			ExpIn:   rapid.SampledFrom([]int{0, 0, 0, 0, 1, 2, 3, 5}).Draw(rt, "connExp"),
 			CSR:     rapid.Bool().Draw(rt, "csr"),
 			Extend:  rapid.SampledFrom([]int{0, 2, 3}).Draw(rt, "extend"),
 			RWQ:     rapid.IntRange(0, 3).Draw(rt, "rwq") == 0,
@@ -207,12 +207,25 @@ func vfC08Gen(rt *rapid.T) vfC08Case {
 		c.Conns = append(c.Conns, k)
 	}
 	n := rapid.IntRange(4, 26).Draw(rt, "nsteps")
-	kinds := []int{vfC08Connect, vfC08Connect, vfC08Release, vfC08Release, vfC08Subscribe, vfC08Subscribe, vfC08Subscribe, vfC08Subscribe,
-		vfC08UnsubCmd, vfC08UnsubCmd, vfC08ClientUnsub, vfC08ClientUnsub, vfC08NodeUnsub, vfC08GapPublish, vfC08GapPublish, vfC08Advance, vfC08Advance,
-		vfC08Advance, vfC08ClientDisconnect, vfC08NodeDisconnect, vfC08TransportClose, vfC08Misc, vfC08Misc, vfC08Shutdown, vfC08Publish}
+	kinds := []int{vfC08Connect, vfC08Connect, vfC08Release, vfC08Release, vfC08Subscribe, vfC08Subscribe, vfC08Subscribe, vfC08Subscribe, vfC08Subscribe,
+		vfC08UnsubCmd, vfC08UnsubCmd, vfC08ClientUnsub, vfC08ClientUnsub, vfC08NodeUnsub, vfC08GapPublish, vfC08GapPublish, vfC08GapPublish,
+		vfC08Advance, vfC08Advance, vfC08Advance, vfC08Advance, vfC08Advance, vfC08ClientDisconnect, vfC08NodeDisconnect, vfC08TransportClose,
+		vfC08Misc, vfC08Misc, vfC08Publish}
+	// Node.Shutdown at a drawn point of the schedule (half of the cases), otherwise after it
+	shutdownAt := -1
+	if rapid.Bool().Draw(rt, "shutdown_inside") {
+		shutdownAt = rapid.IntRange(0, n-1).Draw(rt, "shutdown_at")
+	}
+	var subscribed [][2]int
 	for i := 0; i < n; i++ {
 		s := vfC08Step{Kind: rapid.SampledFrom(kinds).Draw(rt, "kind")}
-		if i < nc && rapid.IntRange(0, 4).Draw(rt, "early_connect") > 0 {
+		if i >= nc && i < nc+3 && rapid.Bool().Draw(rt, "early_subscribe") {
+			s.Kind = vfC08Subscribe
+		}
+		if i == shutdownAt {
+			s.Kind = vfC08Shutdown
+		}
+		if i < nc && i != shutdownAt && rapid.IntRange(0, 4).Draw(rt, "early_connect") > 0 {
 			s.Kind = vfC08Connect
 			s.Conn = i
 		} else {
@@ -220,15 +233,33 @@ func vfC08Gen(rt *rapid.T) vfC08Case {
 		}
 		s.Ch = rapid.IntRange(0, 2).Draw(rt, "ch")
 		switch s.Kind {
+		case vfC08UnsubCmd, vfC08ClientUnsub, vfC08NodeUnsub, vfC08GapPublish:
+			// mostly aim at a (connection, channel) pair an earlier step or the connect reply subscribed
+			var cand [][2]int
+			for _, p := range subscribed {
+				if s.Kind != vfC08GapPublish || c.Chans[p[1]].Pos {
+					cand = append(cand, p)
+				}
+			}
+			if len(cand) > 0 && rapid.IntRange(0, 4).Draw(rt, "aim") > 0 {
+				p := cand[rapid.IntRange(0, len(cand)-1).Draw(rt, "target")]
+				s.Conn, s.Ch = p[0], p[1]
+			}
+		}
+		switch s.Kind {
 		case vfC08Connect:
 			s.Gate = rapid.IntRange(0, 2).Draw(rt, "gate") == 0
+			for _, ch := range c.Conns[s.Conn].Subs {
+				subscribed = append(subscribed, [2]int{s.Conn, ch})
+			}
 		case vfC08Subscribe:
 			s.Server = rapid.IntRange(0, 3).Draw(rt, "server") == 0
 			s.Gate = !s.Server && rapid.IntRange(0, 3).Draw(rt, "gate") == 0
+			subscribed = append(subscribed, [2]int{s.Conn, s.Ch})
 		case vfC08GapPublish:
 			s.N = rapid.IntRange(1, 3).Draw(rt, "n")
 		case vfC08Advance:
-			s.AdvMs = rapid.SampledFrom([]int{1, 500, 1000, 1000, 1500, 2000, 3000, 6000}).Draw(rt, "adv")
+			s.AdvMs = rapid.SampledFrom([]int{1, 500, 1000, 1500, 2000, 3000, 4000, 6000}).Draw(rt, "adv")
 		case vfC08Misc:
 			s.Misc = rapid.IntRange(0, 2).Draw(rt, "misc")
 		}
@@ -515,12 +546,18 @@ func vfC08Run(t *testing.T, cs vfC08Case, out *vfC08Out, isKnown func(string) bo
 		var shutdownDone chan struct{}
 		var shutdownStartSeq, shutdownDoneSeq int64
 		liveAtShutdown := 0
+		connectedBeforeShutdown := map[string]bool{} // connect callback had completed when Shutdown was called
 		midConnectAtShutdown := 0
 		startShutdown := func() {
 			if shutdownDone != nil {
 				return
 			}
 			liveAtShutdown = w.node.Hub().NumClients()
+			for _, k := range states {
+				if connectSeen(k) {
+					connectedBeforeShutdown[k.conn.Client.ID()] = true
+				}
+			}
 			for _, k := range states {
 				if k.connectAt > 0 && !k.idle() && w.Gates.Waiting("connecting:"+k.conn.Name) > 0 {
 					midConnectAtShutdown++
@@ -563,6 +600,9 @@ func vfC08Run(t *testing.T, cs vfC08Case, out *vfC08Out, isKnown func(string) bo
 		originKey := func(id string, transport string) string {
 			for _, k := range states {
 				if k.conn.Client.ID() == id {
+					if connectedBeforeShutdown[id] {
+						return "C08:connected-client-survives-shutdown" // never expected: Hub.shutdown closes every registered client
+					}
 					if k.connectAt < shutdownStartSeq {
 						return "C08:connect-in-flight-during-shutdown-stays-connected"
 					}
@@ -580,10 +620,64 @@ func vfC08Run(t *testing.T, cs vfC08Case, out *vfC08Out, isKnown func(string) bo
 			return "C08:newclient-connects-after-shutdown"
 		}
 
+		// Harness limit (guide rule d): close() holds connectMu while it waits up to 5 virtual seconds for an in-flight
+		// client-side subscribe; a second close() of the same client then blocks on that mutex, which is not a durable
+		// block, so the virtual clock could never advance. While a subscribe of a connection is parked at its gate at
+		// most one operation that may close that connection is started; before a second one the gate is released.
+		closeIssued := map[*vfC08ConnState]bool{}
+		guardClose := func(targets []*vfC08ConnState) {
+			for _, k := range targets {
+				if w.Gates.Waiting("sub:"+k.conn.Name) == 0 {
+					closeIssued[k] = false
+					continue
+				}
+				if closeIssued[k] {
+					for w.Gates.Release("sub:" + k.conn.Name) {
+					}
+					vfSettle()
+					closeIssued[k] = false
+					out.label("sub_gate_auto_released")
+					continue
+				}
+				closeIssued[k] = true
+			}
+		}
+		sameUser := func(k *vfC08ConnState) []*vfC08ConnState {
+			var r []*vfC08ConnState
+			for _, x := range states {
+				if x.conn.User == k.conn.User {
+					r = append(r, x)
+				}
+			}
+			return r
+		}
+		releaseAllSubGates := func() {
+			rel := false
+			for _, k := range states {
+				for w.Gates.Release("sub:" + k.conn.Name) {
+					rel = true
+				}
+				closeIssued[k] = false
+			}
+			if rel {
+				vfSettle()
+				out.label("sub_gate_auto_released")
+			}
+		}
 		inPar := false
 		for si, s := range cs.Steps {
 			k := states[s.Conn%len(states)]
 			applied := false
+			switch s.Kind {
+			case vfC08ClientDisconnect, vfC08TransportClose, vfC08Misc:
+				guardClose([]*vfC08ConnState{k})
+			case vfC08NodeDisconnect:
+				guardClose(sameUser(k))
+			case vfC08Shutdown, vfC08Advance:
+				guardClose(states)
+			case vfC08GapPublish, vfC08Publish:
+				releaseAllSubGates()
+			}
 			parkedSomewhere := len(w.Gates.AnyWaiting()) > 0
 			switch s.Kind {
 			case vfC08Connect:
@@ -624,6 +718,9 @@ func vfC08Run(t *testing.T, cs vfC08Case, out *vfC08Out, isKnown func(string) bo
 					id := k.conn.NextID()
 					k.subIDs[id] = ch
 					applied = clientCmd(k, func() { k.conn.Cmd(&protocol.Command{Id: id, Subscribe: &protocol.SubscribeRequest{Channel: ch}}) })
+					if applied {
+						out.label("client_subscribe_issued")
+					}
 					if !applied {
 						w.Gates.Disarm("sub:" + k.conn.Name)
 					}
@@ -759,6 +856,8 @@ func vfC08Run(t *testing.T, cs vfC08Case, out *vfC08Out, isKnown func(string) bo
 
 		// ---- O7 probes: attempts after shutdown completed ------------------------------------------------------------
 		var probeConns []*vfConn
+		var wsMu sync.Mutex
+		var wsReads []string
 		probeBodies := map[string]*vfC08RW{}
 		for pi, p := range cs.Probes {
 			switch p {
@@ -810,7 +909,11 @@ func vfC08Run(t *testing.T, cs vfC08Case, out *vfC08Out, isKnown func(string) bo
 						frame = append(frame, b^[]byte{1, 2, 3, 4}[i%4])
 					}
 					go func() { _, _ = cli.Write(frame) }()
-					_, _ = io.Copy(io.Discard, cli)
+					var got bytes.Buffer
+					_, _ = io.Copy(&got, cli)
+					wsMu.Lock()
+					wsReads = append(wsReads, got.String())
+					wsMu.Unlock()
 				}()
 				cancels = append(cancels, func() { _ = cli.Close(); _ = srv.Close() })
 			}
@@ -880,9 +983,10 @@ func vfC08Run(t *testing.T, cs vfC08Case, out *vfC08Out, isKnown func(string) bo
 				if c.nConnect == 0 {
 					return fmt.Sprintf("O2: %s callback ran for client %s whose connect callback had not run; events: %s", e.Kind, vfC08Short(e.Client), vfC08RenderEvents(events, e.Client))
 				}
-				if c.connectDone == 0 && e.Kind != "subscribe" && e.Kind != "rpc" && e.Kind != "message" && e.Kind != "refresh" {
-					// the world installs these handlers inside the connect callback; a lifecycle callback that fires
-					// before the connect callback returned overlaps it
+				if c.connectDone == 0 && (e.Kind == "disconnect" || e.Kind == "alive" || (e.Kind == "unsubscribe" && strings.HasPrefix(e.Detail, "code=1 "))) {
+					// The close path and the timers are serialised with the connect callback (connectMu; timers are armed
+					// after it): their callbacks must not overlap it. Callbacks triggered by commands or server API calls
+					// (subscribe, rpc, Client.Unsubscribe ...) may legitimately overlap a slow connect callback.
 					return fmt.Sprintf("O2: %s callback ran for client %s while its connect callback was still running; events: %s", e.Kind, vfC08Short(e.Client), vfC08RenderEvents(events, e.Client))
 				}
 			}
@@ -935,6 +1039,7 @@ func vfC08Run(t *testing.T, cs vfC08Case, out *vfC08Out, isKnown func(string) bo
 				case r.Subscribe != nil && r.Error == nil:
 					if ch, ok := k.subIDs[r.Id]; ok {
 						F[ch]++
+						out.label("client_subscribe_established")
 					}
 				case r.Push != nil && r.Push.Connect != nil:
 					for ch := range r.Push.Connect.Subs {
@@ -942,6 +1047,7 @@ func vfC08Run(t *testing.T, cs vfC08Case, out *vfC08Out, isKnown func(string) bo
 					}
 				case r.Push != nil && r.Push.Subscribe != nil:
 					F[r.Push.Channel]++
+					out.label("server_subscribe_established")
 				case r.Push != nil && r.Push.Unsubscribe != nil:
 					pushUnsub[r.Push.Channel]++
 				}
@@ -1021,12 +1127,27 @@ func vfC08Run(t *testing.T, cs vfC08Case, out *vfC08Out, isKnown func(string) bo
 				codes["refresh_callback"] = true
 			}
 		}
+		for _, k := range states {
+			if closed, d := k.conn.T.Closed(); closed {
+				codes[fmt.Sprintf("transport_closed_%d", d.Code)] = true
+			}
+		}
 		for c := range codes {
 			out.label(c)
 		}
 		for _, p := range cs.Probes {
 			out.label("probe_" + []string{"newclient", "sse", "http_stream", "websocket"}[p])
 		}
+		wsMu.Lock()
+		for _, r := range wsReads {
+			if strings.Contains(r, "101 Switching Protocols") {
+				out.label("probe_websocket_handshake_completed_then_closed")
+			}
+			if strings.Contains(r, `"connect"`) {
+				out.label("probe_got_connect_reply_websocket")
+			}
+		}
+		wsMu.Unlock()
 		for name, rw := range probeBodies {
 			if strings.Contains(rw.Body(), `"connect"`) {
 				out.label("probe_got_connect_reply_" + strings.SplitN(name, "#", 2)[0])
